@@ -200,6 +200,42 @@ pub fn boundary_table() -> Vec<(&'static str, Vec<u8>)> {
         t.push(("tag block empty", format!("\\\\!{}*{:02X}", body, x).into_bytes()));
         t.push(("two tag blocks", format!("\\a\\\\b\\!{}*{:02X}", body, x).into_bytes()));
     }
+    {
+        // what tools that write, forward or display text put in front of a line: byte order marks,
+        // control characters, terminal escapes, log prefixes. All of it is "leading garbage".
+        let body = "AIVDM,1,1,,A,15RTgt0PAso;90TKcjM8h6g208CQ,0";
+        let x = nmea_ref::xor(body.as_bytes());
+        let good = format!("!{}*{:02X}", body, x).into_bytes();
+        let tagged = format!("\\s:1,c:2*00\\!{}*{:02X}", body, x).into_bytes();
+        let prefixes: [(&'static str, &[u8]); 16] = [
+            ("prefix UTF-8 byte order mark", b"\xEF\xBB\xBF"),
+            ("prefix UTF-16 LE byte order mark", b"\xFF\xFE"),
+            ("prefix UTF-16 BE byte order mark", b"\xFE\xFF"),
+            ("prefix NUL", b"\0"),
+            ("prefix CR", b"\r"),
+            ("prefix LF", b"\n"),
+            ("prefix tab", b"\t"),
+            ("prefix two spaces", b"  "),
+            ("prefix non-breaking space", b"\xC2\xA0"),
+            ("prefix zero-width space", b"\xE2\x80\x8B"),
+            ("prefix ANSI reset", b"\x1b[0m"),
+            ("prefix XON", b"\x11"),
+            ("prefix unix time", b"1696241893.123 "),
+            ("prefix bracketed date", b"[2023-10-02 10:18:13] "),
+            ("prefix syslog", b"<13>Oct  2 10:18:13 host ais: "),
+            ("prefix quote", b"\""),
+        ];
+        for (name, pre) in prefixes.iter() {
+            let mut l = pre.to_vec();
+            l.extend_from_slice(&good);
+            t.push((name, l));
+        }
+        for (name, pre) in prefixes.iter().take(4) {
+            let mut l = pre.to_vec();
+            l.extend_from_slice(&tagged);
+            t.push((name, l));
+        }
+    }
     t.push(("address 4 bytes", raw("AIVD,1,1,,A,15RTgt0PAso;90TKcjM8h6g208CQ,0", "")));
     t.push(("address 6 bytes", raw("AIVDMM,1,1,,A,15RTgt0PAso;90TKcjM8h6g208CQ,0", "")));
     t.push(("extra comma field", raw("AIVDM,1,1,,A,,15RTgt0PAso;90TKcjM8h6g208CQ,0", "")));
